@@ -11,6 +11,7 @@ CONSTANTS
   MaxStack = 0
   MaxBinNest = 0
   MatcherKinds = {}
+  MatcherKindsB = {}
   Leaves = {}
   UnFns = {}
   AggOps = {}
@@ -49,7 +50,7 @@ def S(*xs):
 # ---- vocabularies (constants of LabelFlow.tla) -------------------------------------------------------
 BASE = dict(
     MaxDepth=1, MaxStack=2, MaxBinNest=1,
-    MatcherKinds=S("none", "eq"), Leaves=S("sel"), UnFns=S(), AggOps=S("sum"),
+    MatcherKinds=S("none", "eq"), MatcherKindsB=S("none"), Leaves=S("sel"), UnFns=S(), AggOps=S("sum"),
     AggLabelSets=S(S("a")), ArithOps=S("*"), CmpOps=S(), SetOps=S("and"),
     MatchSets=S(S(), S("a")), GroupIncs=S(), Fixes=S(),
     DBSeries=1, DBA=S("x", "y"), DBB=S("x"), DBC=S(), DBVals=S(1),
@@ -72,18 +73,34 @@ ALL_MATCH = S("none", "eq", "neq", "re", "nre", "empty", "nonempty", "reany", "e
 ALL_UN = S("abs", "neg", "scalar", "vecs", "absent", "rate", "lot", "lotsub", "absentot",
            "lrepc", "lrepa", "lrepcx", "lrepdel", "ljoin")
 
-# exhaustive, small: joins over selectors and one aggregation level (the shape of F6)
-MC_JOIN = dict(MaxDepth=2, MatcherKinds=S("none", "eq", "empty"), AggOps=S("sum"),
-               AggLabelSets=S(S("a"), S("a", "b")), ArithOps=S("*"), SetOps=S("and", "unless", "or"),
-               MatchSets=S(S(), S("a"), S("b")), GroupIncs=S(S()), DBB=S("x"))
-# exhaustive, depth 1, wide: every leaf, every unary constructor on every leaf, every binary operator over leaves
-MC_WIDE1 = dict(MaxDepth=1, MatcherKinds=ALL_MATCH, Leaves=S("sel", "seloff", "num", "time", "vec"), UnFns=ALL_UN,
-                AggOps=S("sum", "count", "topk", "cv"), AggLabelSets=S(S(), S("a"), S("b"), S("a", "b"), S("c")),
-                ArithOps=S("+", "-", "*"), CmpOps=S("==", "!=", ">", "<", ">=", "<="), SetOps=S("and", "or", "unless"),
+ALL_CMP = S("==", "!=", ">", "<", ">=", "<=")
+ALL_AGGSETS = S(S(), S("a"), S("b"), S("a", "b"), S("c"))
+
+# exhaustive: vector matching over selectors / absent / one aggregation level (depth 2, no nested binary node)
+MC_JOIN = dict(MaxDepth=2, MaxBinNest=1, MatcherKinds=S("none", "eq", "empty"), Leaves=S("sel"), UnFns=S("absent"),
+               AggOps=S("sum"), AggLabelSets=S(S("a"), S("b")), ArithOps=S("*"), CmpOps=S(">="), SetOps=S("and", "or", "unless"),
+               MatchSets=S(S(), S("a")), GroupIncs=S(S(), S("b")),
+               DBSeries=1, DBA=S("x", "y"), DBB=S("x"), DBC=S(), DBVals=S(1))
+# exhaustive: constant folding / always-returns reasoning (numbers, vector(), time(), scalar(), absent, count/sum, unary minus)
+MC_STATIC = dict(MaxDepth=2, MaxBinNest=1, MatcherKinds=S("none"), Leaves=S("num", "vec", "time"),
+                 UnFns=S("neg", "abs", "scalar", "vecs", "absent"), AggOps=S("sum", "count"), AggLabelSets=S(),
+                 ArithOps=S("+", "-"), CmpOps=ALL_CMP, SetOps=S("and", "or", "unless"), MatchSets=S(S()), GroupIncs=S(),
+                 DBSeries=1, DBA=S(), DBB=S(), DBC=S(), DBVals=S(1))
+# exhaustive: every unary constructor over every leaf (depth 1), all matcher kinds, full single-series databases
+MC_UNARY = dict(MaxDepth=1, MaxStack=1, MatcherKinds=ALL_MATCH, MatcherKindsB=S("none", "eq", "empty"), Leaves=S("sel", "seloff", "num", "time", "vec"), UnFns=ALL_UN,
+                AggOps=S("sum", "count", "topk", "cv"), AggLabelSets=ALL_AGGSETS, ArithOps=S(), CmpOps=S(), SetOps=S(),
+                MatchSets=S(), GroupIncs=S(), DBSeries=1, DBA=S("x", "y"), DBB=S("x"), DBC=S("x"), DBVals=S(1, 2))
+# exhaustive, depth 1: every binary operator and modifier over leaves (reduced matcher kinds)
+MC_WIDE1 = dict(MaxDepth=1, MatcherKinds=S("none", "eq", "neq", "empty"), MatcherKindsB=S("none", "eq"), Leaves=S("sel", "num", "vec"), UnFns=S(),
+                AggOps=S(), AggLabelSets=S(), ArithOps=S("+", "*"), CmpOps=S("==", ">"), SetOps=S("and", "or", "unless"),
                 MatchSets=S(S(), S("a"), S("b"), S("a", "b")), GroupIncs=S(S(), S("b"), S("c")),
                 DBSeries=1, DBA=S("x", "y"), DBB=S("x"), DBC=S("x"), DBVals=S(1, 2))
 # simulation over the full vocabulary
-SIM_FULL = dict(MC_WIDE1, MaxDepth=3, MaxBinNest=2, MaxStack=3)
+SIM_FULL = dict(MaxDepth=3, MaxBinNest=2, MaxStack=3, MatcherKinds=ALL_MATCH, MatcherKindsB=S("none", "eq", "empty"), Leaves=S("sel", "seloff", "num", "time", "vec"),
+                UnFns=ALL_UN, AggOps=S("sum", "count", "topk", "cv"), AggLabelSets=ALL_AGGSETS,
+                ArithOps=S("+", "-", "*"), CmpOps=ALL_CMP, SetOps=S("and", "or", "unless"),
+                MatchSets=S(S(), S("a"), S("b"), S("a", "b")), GroupIncs=S(S(), S("b"), S("c")),
+                DBSeries=1, DBA=S("x"), DBB=S(), DBC=S(), DBVals=S(1))
 
 
 def _sel(m, ma="none", mb="none"):
@@ -101,8 +118,11 @@ def _bin(op, vm, ls, l, r, grp="none", inc=(), bool_=False):
 PROBES = {
     # fixes/f6-canjoin-ignoring.patch: a label listed in ignoring() no longer makes a join impossible
     "F6": _bin("and", "ign", ["a"], _sel("m", "eq"), _agg("sum", "none", [], _sel("n"))),
-    # fixes/f12-canjoin-on-forced-labels.patch: on(a) with `a` on neither side is a valid join
-    "F12": _bin("and", "on", ["a"], _agg("sum", "none", [], _sel("m")), _agg("sum", "without", ["a"], _sel("m"))),
+    # fixes/C12-canjoin-on-forced-labels.patch: on(a) with `a` on neither side is a valid join
+    "OnForced": _bin("and", "on", ["a"], _agg("sum", "none", [], _sel("m")), _agg("sum", "without", ["a"], _sel("m"))),
+    # fixes/C12-empty-matcher-not-guaranteed.patch: absent(m{a=""}) does not guarantee label a
+    "EmptyEq": _bin("and", "none", [], {"k": "fn", "f": "absent", "e": _sel("m", "empty"), "dst": "", "src": "", "re": "", "repl": ""},
+                {"k": "fn", "f": "absent", "e": _sel("n"), "dst": "", "src": "", "re": "", "repl": ""}),
 }
 
 
@@ -120,8 +140,11 @@ def detect_fixes(ctx):
 def shape_sig(v):
     """Signature string of one violation record printed by LabelFlowTrace (normalised abstract case)."""
     if v["p"] == "C04":
-        return "C04:%s:carries=%s:branches=%d:live=%d:%s" % (
-            v["form"], "".join(sorted(v["names"])) or "-", v["nbranches"], v["nlive"], v["shape"])
+        via = "no-live-branch-fits"
+        if v["viadead"]:
+            via = "via-dead-branch{" + ";".join(sorted({c["kind"] + ":" + c["cause"] for c in v["causes"]})) + "}"
+        return "C04:%s:%s:carries=%s:live=%d/%d:%s" % (
+            v["form"], via, "".join(sorted(v["names"])) or "-", v["nlive"], v["nbranches"], v["shape"])
     mod = v["vm"] + "(" + ",".join(sorted(v["ls"])) + ")" if v["vm"] != "none" else "none"
     grp = v["grp"] + "(" + ",".join(sorted(v["inc"])) + ")" if v["grp"] != "none" else "none"
     return "C12:%s/%s:%s:label=%s:%s:%s:%s" % (v["kind"], v["side"], v["cause"], v["label"] or "-", mod, grp, v["shape"])
@@ -139,31 +162,77 @@ def what(v):
                v["nonempty"] or v["differs"], v["nprem"], json.dumps(v["wit"]["db"])))
 
 
+def pshape(e):
+    """Coarse shape of an abstract expression (used only to sample leads evenly)."""
+    k = e["k"]
+    if k in ("sel", "num", "time"):
+        return k
+    if k == "vec":
+        return "vector(%s)" % pshape(e["e"])
+    if k == "fn":
+        return "%s(%s)" % (e["f"], pshape(e["e"]))
+    if k == "agg":
+        return "%s_%s(%s)" % (e["op"], e["mod"], pshape(e["e"]))
+    return "(%s %s%s %s %s %s)" % (pshape(e["l"]), e["op"], "_bool" if e["bool"] else "", e["vm"], e["grp"], pshape(e["r"]))
+
+
+def tiers(thorough):
+    """(name, constants) of the exhaustive MC slices and the simulation size."""
+    if thorough:
+        return [("join", MC_JOIN), ("static", dict(MC_STATIC, MaxDepth=2)), ("unary", dict(MC_UNARY, MaxDepth=2, DBVals=S(1))),
+                ("wide1", MC_WIDE1)], 400, 60000
+    q_join = dict(MC_JOIN, MatcherKinds=S("none", "eq"), AggLabelSets=S(S("a")))
+    q_wide = dict(MC_WIDE1, MatcherKinds=S("none", "eq", "empty"), MatcherKindsB=S("none"), CmpOps=S(">="), ArithOps=S("*"),
+                  MatchSets=S(S(), S("a")), GroupIncs=S(S(), S("b")), DBC=S(), DBVals=S(1))
+    return [("join", q_join), ("static", MC_STATIC), ("unary", dict(MC_UNARY, DBVals=S(1))), ("wide1", q_wide)], 25, 2500
+
+
 def run(ctx, prop, cases_override=None):
+    import os
+    import random
     thorough = ctx.thorough
     lead_inv = "Lead_" + prop
-    workers = int(__import__("os").environ.get("LF_WORKERS", "0")) or None
+    workers = int(os.environ.get("LF_WORKERS", "0")) or None
     cases, leads = [], []
     mc_runs = []
     fixes = detect_fixes(ctx)
     log("[lflow] repairs present in the analysed tree: %s" % (sorted(fixes) or "none"))
+    rnd = random.Random(ctx.seed)
+    nlead_total = 0
     if cases_override is None:
-        # ---- MC: exhaustive small configurations; model-level counterexamples are leads, replayed below
-        mcs = [("join", MC_JOIN), ("wide1", MC_WIDE1)]
-        for name, consts in mcs:
+        slices, nsim, ncap = tiers(thorough)
+        # ---- MC: exhaustive slices; model-level counterexamples are leads, replayed below on the real code
+        for name, consts in slices:
             r = ctx.tlc("LabelFlow", "lf_mc_%s.cfg" % name, files={"lf_mc_%s.cfg" % name: cfg_text(consts, [lead_inv, "EmitCase"], fixes)},
-                        timeout=3000, workers=workers, tag="MC-" + name)
+                        timeout=5000, workers=workers, tag="MC-" + name, heap="8g")
             mc_runs.append(r)
             ls = [v[0] for v in prints(r, "LEAD")]
             cs = [v[0] for v in prints(r, "CASE")]
-            log("[lflow] MC %s: %d finished expressions, %d leads" % (name, len(cs), len(ls)))
-            leads += ls
-            cases += cs
-        # ---- GEN: simulation over the full vocabulary
-        nsim = 60000 if thorough else 1500
+            log("[lflow] MC %s: %d expressions checked against %s, %d leads" % (name, len(cs), lead_inv, len(ls)))
+            nlead_total += len(ls)
+            # replay a bounded, evenly spread sample of the leads (every shape is represented) ...
+            groups = {}
+            for x in sorted(ls, key=lambda x: json.dumps(x["e"], sort_keys=True)):
+                groups.setdefault(pshape(x["e"]), []).append(x)
+            per = 6 if thorough else 2
+            for k in sorted(groups):
+                g = groups[k]
+                rnd.shuffle(g)
+                leads += g[:per]
+            # ... and of the expressions the model found nothing wrong with
+            cs.sort(key=lambda c: json.dumps(c, sort_keys=True))
+            rnd.shuffle(cs)
+            cases += cs[:(20000 if thorough else 700)]
+        if len(leads) > (20000 if thorough else 1200):
+            rnd.shuffle(leads)
+            leads = leads[:(20000 if thorough else 1200)]
+        # ---- GEN: simulation over the full vocabulary (deeper, nested binary nodes)
         g = ctx.tlc("LabelFlow", "lf_sim.cfg", files={"lf_sim.cfg": cfg_text(SIM_FULL, ["EmitCase"], fixes)}, simulate=nsim, depth=9,
-                    timeout=3000, workers=workers, tag="GEN-sim")
-        cases += [v[0] for v in prints(g, "CASE")]
+                    timeout=3000, workers=1, tag="GEN-sim", heap="4g")
+        sim = {json.dumps(v[0], sort_keys=True): v[0] for v in prints(g, "CASE")}
+        sim = [sim[k] for k in sorted(sim)]
+        rnd.shuffle(sim)
+        cases += sim[:ncap]
     else:
         cases = cases_override
     # leads first (they carry a witness database), then the distinct generated expressions
@@ -177,19 +246,10 @@ def run(ctx, prop, cases_override=None):
         uniq.append(c)
     for x in leads:
         lead_keys.add(json.dumps(x["e"], sort_keys=True))
-    nlead = sum(1 for c in uniq if json.dumps(c["e"], sort_keys=True) in lead_keys)
-    # bound the replay volume in the quick tier (leads are always kept)
-    cap = 200000 if thorough else 6000
-    if cases_override is None and len(uniq) > cap:
-        import random
-        rnd = random.Random(ctx.seed)
-        head, tail = uniq[:nlead], uniq[nlead:]
-        rnd.shuffle(tail)
-        uniq = head + tail[:max(0, cap - len(head))]
     cpath = write_ndjson(ctx.path("lflow_cases.ndjson"), uniq)
     # ---- EXEC
     tpath = ctx.path("lflow_trace.ndjson")
-    ndb = 1000 if thorough else 160
+    ndb = 800 if thorough else 120
     ctx.vh("exec-lflow", cpath, tpath, env={"LF_NDB": str(ndb), "LF_NPREM": str(ndb), "LF_NCONC": "4"}, timeout=3000)
     trace = read_ndjson(tpath)
     if len(trace) != len(uniq):
@@ -224,7 +284,9 @@ def run(ctx, prop, cases_override=None):
     cov = {
         "states": sum(r["distinct"] or 0 for r in mc_runs),
         "transitions": sum(r["generated"] or 0 for r in mc_runs),
-        "model_level_leads": len(lead_keys),
+        "model_level_leads": nlead_total,
+        "model_level_leads_replayed": len(lead_keys),
+        "repairs_detected_in_tree": sorted(fixes),
         "traces_validated_against_impl": len(trace),
         "samples": [{"q": r["q"], "branches": r["branches"], "tmpl": r["tmpl"], "result_label_sets": [s["names"] for s in r["sets"]],
                      "flags": [f["msg"][:80] for f in r["flags"]]} for r in trace[len(trace) // 2: len(trace) // 2 + 3]],
